@@ -89,7 +89,7 @@ var (
 	mitmErr  error
 )
 
-// MITM returns a fresh mitm.Config under the process-wide MITM authority and
+// MITM returns the process-wide mitm.Config under the process-wide MITM authority and
 // the pool with which a harness client verifies forged certificates.
 func MITM() (*mitm.Config, *x509.CertPool, error) {
 	mitmOnce.Do(func() {
@@ -105,9 +105,16 @@ func MITM() (*mitm.Config, *x509.CertPool, error) {
 	if mitmErr != nil {
 		return nil, nil, mitmErr
 	}
-	mc, err := mitm.NewConfig(mitmCA, mitmKey)
-	return mc, mitmPool, err
+	// NewConfig generates an RSA key for the leaves: one Config per process
+	// (its certificate cache is not what the callers of this helper test).
+	mitmConfOnce.Do(func() { mitmConf, mitmErr = mitm.NewConfig(mitmCA, mitmKey) })
+	return mitmConf, mitmPool, mitmErr
 }
+
+var (
+	mitmConfOnce sync.Once
+	mitmConf     *mitm.Config
+)
 
 // UpstreamTLS makes the proxy trust the harness origin CA for its upstream
 // connections (the default transport would use the system roots).
